@@ -27,13 +27,23 @@ pub fn s_nackbuf(_run: &mut Run, a: &[&str]) -> (String, Fails) {
     // newest version per sequence number, 25 ms per-sequence resend cooldown
     let mut fifo: VecDeque<u16> = VecDeque::new(); let mut latest: HashMap<u16, u32> = HashMap::new();
     let mut accepted: HashMap<u16, u64> = HashMap::new();
+    let mut rtx: u32 = 0;
     for op in &a[1..] {
         let g: Vec<&str> = op.split(':').collect();
         match g[0] {
-            "s" => {
-                let (seq, tag): (u16, u32) = (g[1].parse().unwrap(), g[2].parse().unwrap());
-                futures::executor::block_on(h.on_packet_sent(&pkt(7, seq, tag), addr(), addr()));
-                if latest.insert(seq, tag).is_none() { fifo.push_back(seq); while fifo.len() > cap { let o = fifo.pop_front().unwrap(); latest.remove(&o); } }
+            "r" => {
+                rtx = g[1].parse().unwrap();
+                h.set_rtx(if rtx == 0 { None } else { Some(rustrtc::rtx::RtxSenderConfig { rtx_ssrc: rtx, rtx_payload_type: 97 }) });
+                if h.rtx_config().map(|c| c.rtx_ssrc).unwrap_or(0) != rtx { f.push(("nackbuf:rtx-config".into(), String::new())); }
+                out.push(format!("l{}", h.buffered_packet_count()));
+            }
+            "s" | "x" => {
+                let (ssrc, seq, tag): (u32, u16, u32) = if g[0] == "s" { (7, g[1].parse().unwrap(), g[2].parse().unwrap()) }
+                    else { (g[1].parse().unwrap(), g[2].parse().unwrap(), g[3].parse().unwrap()) };
+                futures::executor::block_on(h.on_packet_sent(&pkt(ssrc, seq, tag), addr(), addr()));
+                // RTX retransmissions (packets carrying the RTX SSRC) are never stored
+                if rtx != 0 && ssrc == rtx { /* skipped */ }
+                else if latest.insert(seq, tag).is_none() { fifo.push_back(seq); while fifo.len() > cap { let o = fifo.pop_front().unwrap(); latest.remove(&o); } }
                 let n = h.buffered_packet_count();
                 if n > cap { f.push(("nackbuf:exceeds-capacity".into(), format!("{n} > {cap}"))); }
                 if n != fifo.len() { f.push(("nackbuf:count".into(), format!("{n} vs {}", fifo.len()))); }
@@ -116,7 +126,10 @@ pub fn generate(run: &mut Run, rng: &mut Rng, scale: u64, emit: &mut dyn FnMut(&
         for _ in 0..n {
             if rng.chance(3, 4) {
                 seq = if rng.chance(4, 5) { seq.wrapping_add(1) } else { seq.wrapping_sub(rng.below(4) as u16) };
-                ops.push(format!("s:{seq}:{tag}")); tag += 1;
+                if rng.chance(1, 5) { ops.push(format!("x:{}:{seq}:{tag}", pk!(rng, [9u32, 9, 9, 7, 0]))); }
+                else { ops.push(format!("s:{seq}:{tag}")); }
+                tag += 1;
+                if rng.chance(1, 8) { ops.push(format!("r:{}", pk!(rng, [9u32, 9, 9, 0, 7]))); }
             } else {
                 t += pk!(rng, [0u64, 1, 24, 25, 26, 100]);
                 let k = rng.range(1, 6);
